@@ -26,7 +26,7 @@ def weight(grp: dict) -> int:
 
 
 def validate(wd, groups: list[dict], *, seeds=(1, 2), layout="edge", ternary=(), fam="S", tag="tv",
-             module="TV.tla", timeout=3000, shards: int = NCPU) -> tuple[dict, dict]:
+             module="TV.tla", timeout=3000, shards: int = NCPU, diag: bool = False) -> tuple[dict, dict]:
     """Return ({record id: verdict}, stats). Raises MachineryError unless every record got a verdict."""
     groups = [g for g in groups if g["recs"]]
     if not groups:
@@ -48,7 +48,7 @@ def validate(wd, groups: list[dict], *, seeds=(1, 2), layout="edge", ternary=(),
 
     def one(job):
         k, f, b = job
-        r = tlc(module, cfg, workers=1, env={"TRACE_FILE": str(f)}, meta=wd / f"{tag}-meta{k}",
+        r = tlc(module, cfg, workers=1, env={"TRACE_FILE": str(f), "TV_DIAG": "1" if diag else "0"}, meta=wd / f"{tag}-meta{k}",
                 timeout=timeout, xmx="2g", gcthreads=2)
         out = r["out"]
         if "Model checking completed. No error has been found." not in out:
